@@ -22,6 +22,7 @@ CONSTANTS
   MaxRp = 1
   MaxAssoc = 1
   Slack = 0
+  Bound = 0
   ZonedPanics = TRUE
 INVARIANTS NoCrash
 VIEW View
